@@ -56,8 +56,9 @@ def case(spec):
     pert = span // max(1, ntotal) + 1
     targets = [((idx * pert + j) * stride + (seed % stride)) % 65536 for j in range(pert)]
     tl = list(targets)
+    stray = idx % 7 == 3
     prog, lines = bg.gen_prog(r, dialect, maxlines=max(14, len(sweep) + len(tl) + 2), targets=tl, sweep_tokens=sweep,
-                              long_lines=True)
+                              long_lines=True, stray_closers=stray)
     binp = BIN['san']['basic'] if r.random() >= 0.03 else BIN['rel']['basic']
     with Scratch('c03') as tmp:
         path = os.path.join(tmp, 'p.bbc')
@@ -66,7 +67,14 @@ def case(spec):
         listos = list(range(8)) if tier == 'thorough' else r.sample(range(8), 3)
         for listo in listos:
             try:
-                exp = br.list_program(dialect, prog, listo)
+                inf = {}
+                exp = br.list_program(dialect, prog, listo, info=inf)
+                alts = [exp]
+                if inf['state'].get('went_negative'):
+                    # more closers than open loops: the documents do not say whether the depth is clamped at
+                    # zero, so either reading is accepted
+                    alts.append(br.list_program(dialect, prog, listo, clamp=True))
+                    res.add('programs_with_negative_depth', 1)
             except br.Invalid as e:
                 res.inconclusive.append('generator produced a program the reference rejects: %s' % e)
                 continue
@@ -86,7 +94,7 @@ def case(spec):
                 if k_:
                     res.violation('%s' % k_, 'unclean termination on a well-formed program', r_.brief(), files, r_.argv)
                     continue
-                if r_.rc != 0 or r_.out != exp:
+                if r_.rc != 0 or r_.out not in alts:
                     d = first_diff(r_.out, exp)
                     d.update({'dialect': dialect, 'listo': listo, 'how': how, 'run': r_.brief()})
                     kind = 'rejected' if r_.rc != 0 else classify(r_.out, exp)
@@ -117,6 +125,6 @@ def main(tier, seed, scale=1.0):
             'standard input; distinct = (dialect, LISTO, file/stdin, program)'
             % ('16 in quick' if tier == 'quick' else '1 (all 65536)', '3 random' if tier == 'quick' else 'all 8'))
     return run_check(PROP, 'exploration', case, specs, tier, seed, rule,
-                     assumptions=['loop depth never negative; no opener before a closer of the same kind on one line',
+                     assumptions=['programs whose loop depth goes negative are accepted under either reading (depth clamped at zero or not); no opener before a closer of the same kind on one line',
                                   '0x7F outside ARM/Mac and 0xFB for Mac are not generated (documents disagree)',
                                   'no bytes after the end-of-program marker'])
